@@ -39,7 +39,7 @@ CHECKS = {
         technique="TLA+ model checking (TLC) + trace validation of real diff/apply executions against the TLA+ patch-stream property"),
     "C08": dict(
         level="model_checking", ref="DESIGN.md §4 C08",
-        text="The literal TLA+ transcription of the differ is model-checked under idealised entropy (every old byte a distinct symbol, every introduced byte fresh) over ALL edit scripts of up to 2 edits (overwrite/insert/delete, every offset and length) on multi-block files: fresh <= introduced + (2k+2)*BS, fresh + reused = |new|, identical => no data. The real WritePatch runs on builds of high-entropy content related by logged edit scripts, renames and duplications; the patch is decoded independently and TLC checks the per-file bound, zero fresh bytes for content-equal files, and that the differ's counters equal the sums over the patch and add up to the new build's size.",
+        text="The literal TLA+ transcription of the differ is model-checked under idealised entropy (every old byte a distinct symbol, every introduced byte fresh - or, for the kinds owc/insc, a run of ONE repeated fresh symbol, which is what takes the differ's same-hash-as-before shortcut) over ALL edit scripts of up to 2 edits (overwrite/insert/delete, every offset and length) on multi-block files: fresh <= introduced + (2k+2)*BS, fresh + reused = |new|, identical => no data. The real WritePatch runs on builds of high-entropy content related by logged edit scripts (one edit in four introduces a run of one repeated byte), renames and duplications; the patch is decoded independently and TLC checks the per-file bound, zero fresh bytes for content-equal files, and that the differ's counters equal the sums over the patch and add up to the new build's size.",
         note="bound claimed for high-entropy content only; the model-to-code link is the zero-drift result of ./check C11.",
         technique="TLA+ model checking (TLC) over all small edit scripts + trace validation of real patches against the TLA+ accounting property"),
     "C17": dict(
